@@ -10,7 +10,16 @@ package rules
 // R-C19-4; the store reads are the (transitive) calls of clientv3.KV methods below the pull;
 // the adapters are the syncer methods that call run.
 //
-// Files: c19.go (run, R-C19-1, R-C19-3), c19_timer.go (periodic source of R-C19-3), c19_reads.go (R-C19-2), c19_eq.go (R-C19-4),
+// Robustness (c19_units.go): the delivery callback is followed into struct fields and helper
+// parameters; a unit is whatever run's body invokes (closure or declared function/method) below
+// which the callback is called; the pull is searched breadth-first in the unit's helpers; the unit
+// is interpreted with same-package helpers inlined and the "holds the new / the previous
+// snapshot" status of variables and fields is carried through parameter binding and returns.
+// Silent on /verif/preserving/C19/r1..r4 (renames, if-chains, pull+compare extracted into a
+// method, key-only range loops, named results, state bundled in a struct with a method, functions
+// moved to another file), detection re-checked on top of r2 and r4.
+//
+// Files: c19.go (helpers, R-C19-3), c19_units.go (run, units, R-C19-1), c19_timer.go (periodic source of R-C19-3), c19_reads.go (R-C19-2), c19_eq.go (R-C19-4),
 // c19_adapters.go (R-C19-5).
 //
 // Tried on the scratch worktree (/tmp/vw/C19/mut/all.sh, bp.sh; diffs in /tmp/vw/C19/out):
@@ -80,9 +89,11 @@ func init() { Registry["C19"] = c19 }
 
 // c19unit is one closure of run that delivers snapshots.
 type c19unit struct {
-	lit   *ast.FuncLit
+	lit   *ast.FuncLit  // the closure (nil for a declared unit)
+	decl  *ast.FuncDecl // the declared function / method (nil for a closure)
+	body  ast.Node      // lit, or decl.Body
 	f     *flow.Func
-	v     types.Object // variable holding the closure
+	v     types.Object // variable holding the closure, or the function object of a declared unit
 	name  string       // construct prefix
 	sends []*ast.CallExpr
 }
@@ -96,6 +107,10 @@ type c19run struct {
 	prefObj *types.Var // bool parameter (prefix flag)
 	snapT   types.Type // map[string]*mvccpb.KeyValue
 	pm      map[ast.Node]ast.Node
+	runObj  *types.Func
+	funcs   []*flow.Func                         // run and the same-package functions below it
+	pms     map[*flow.Func]map[ast.Node]ast.Node // parent maps of funcs
+	cb      map[types.Object]bool                // the callback parameter and the cells it is stored in
 	units   []*c19unit
 	last    []*types.Var // snapshot-typed variables of run that outlive a unit
 
@@ -106,6 +121,7 @@ type c19run struct {
 type c19pullSite struct {
 	u    *c19unit
 	call *ast.CallExpr
+	f    *flow.Func // the function the pull sits in (the unit or one of its helpers)
 }
 
 func c19(c *core.Ctx) string {
@@ -325,431 +341,6 @@ func c19implies(f *flow.Func, st *flow.State, R ast.Expr, want, assumeFalse []st
 }
 
 // ---------------------------------------------------------------------------------------
-// run: subjects
-
-func c19Run(c *core.Ctx) *c19run {
-	f := fn(c, c19pkg, "syncer", "run")
-	if f == nil {
-		return nil
-	}
-	r := &c19run{f: f, cons: fname(c19pkg, "syncer", "run"), pm: parentMap(f.Body)}
-	for _, v := range c19params(f, f.Type) {
-		switch {
-		case c19isString(v.Type()) && r.keyObj == nil:
-			r.keyObj = v
-		case c19isBool(v.Type()) && r.prefObj == nil:
-			r.prefObj = v
-		default:
-			if _, ok := v.Type().Underlying().(*types.Signature); ok && r.sendObj == nil {
-				r.sendObj = v
-			}
-		}
-	}
-	if r.sendObj == nil || r.keyObj == nil || r.prefObj == nil {
-		c.Errorf("R-C19: anchor: %s does not have (string key, bool prefix, func delivery callback) parameters", r.cons)
-		return nil
-	}
-	sig := r.sendObj.Type().Underlying().(*types.Signature)
-	if sig.Params().Len() != 1 {
-		c.Errorf("R-C19: anchor: delivery callback of %s does not take exactly one snapshot", r.cons)
-		return nil
-	}
-	r.snapT = sig.Params().At(0).Type()
-	if _, ok := r.snapT.Underlying().(*types.Map); !ok {
-		c.Errorf("R-C19: anchor: delivery callback of %s does not take a map snapshot", r.cons)
-		return nil
-	}
-	// every use of the callback must be a direct call
-	var sends []*ast.CallExpr
-	escaped := false
-	ast.Inspect(f.Body, func(n ast.Node) bool {
-		id, ok := n.(*ast.Ident)
-		if !ok || f.Info.Uses[id] != r.sendObj {
-			return true
-		}
-		p := r.pm[id]
-		for {
-			if pe, ok := p.(*ast.ParenExpr); ok {
-				p = r.pm[pe]
-				continue
-			}
-			break
-		}
-		if call, ok := p.(*ast.CallExpr); ok && ast.Unparen(call.Fun) == id {
-			sends = append(sends, call)
-		} else {
-			escaped = true
-		}
-		return true
-	})
-	if escaped {
-		c.Undecide("R-C19-1", r.cons+"|delivery callback", pos(c, f.Body), "the delivery callback is used other than by calling it (stored / passed on): cannot follow it")
-		return nil
-	}
-	if !c.RequireCount("R-C19-1", "delivery callback call sites in run", len(sends), 1) {
-		return nil
-	}
-	// variables that can remember a snapshot across units
-	c19inspect(f.Body, func(n ast.Node) bool {
-		if id, ok := n.(*ast.Ident); ok {
-			if v, ok := f.Info.Defs[id].(*types.Var); ok && types.Identical(v.Type(), r.snapT) {
-				r.last = append(r.last, v)
-			}
-		}
-		return true
-	})
-	// units
-	byLit := map[*ast.FuncLit]*c19unit{}
-	for _, s := range sends {
-		var lit *ast.FuncLit
-		for p := r.pm[s]; p != nil; p = r.pm[p] {
-			if l, ok := p.(*ast.FuncLit); ok {
-				lit = l
-				break
-			}
-		}
-		if lit == nil {
-			// delivery directly in run's body: without a pull in that body the verdict is clear
-			if len(c19pullAssigns(f, f.Body, r.snapT)) == 0 {
-				c.Violate("R-C19-1", r.cons+"|direct delivery only after a successful pull", pos(c, s),
-					"run delivers a map directly (outside the pull-compare-send closure) that was not obtained from a pull: what is delivered (e.g. assembled from watch events) is not a freshly read store state and bypasses the comparison with the last snapshot")
-				continue
-			}
-			c.Undecide("R-C19-1", r.cons+"|delivery outside a closure", pos(c, s), "the delivery callback is called directly in run's body, not in a pull-compare-send closure: shape not supported")
-			return nil
-		}
-		u := byLit[lit]
-		if u == nil {
-			u = &c19unit{lit: lit, f: f.Lit(lit)}
-			switch p := r.pm[lit].(type) {
-			case *ast.AssignStmt:
-				for i, rhs := range p.Rhs {
-					if rhs == lit && i < len(p.Lhs) && len(p.Lhs) == len(p.Rhs) {
-						u.v = c19obj(f, p.Lhs[i])
-					}
-				}
-			case *ast.ValueSpec:
-				for i, rhs := range p.Values {
-					if rhs == lit && i < len(p.Names) {
-						u.v = f.Info.Defs[p.Names[i]]
-					}
-				}
-			}
-			if u.v == nil {
-				c.Undecide("R-C19-1", r.cons+"|delivery closure", pos(c, lit), "the closure that delivers snapshots is not bound to a local variable: shape not supported")
-				return nil
-			}
-			u.name = r.cons + "$" + u.v.Name()
-			byLit[lit] = u
-			r.units = append(r.units, u)
-		}
-		u.sends = append(u.sends, s)
-	}
-	return r
-}
-
-// ---------------------------------------------------------------------------------------
-// R-C19-1
-
-const (
-	c19evDiff  = "ev:differs" // the comparison of last and new reported a difference
-	c19evSent  = "ev:sent"    // delivery callback called
-	c19evSent2 = "ev:sent2"   // ... more than once
-)
-
-// c19pullAssigns finds `new, err := <call returning (snapshot, error)>` in root (nested
-// function literals excluded).
-func c19pullAssigns(f *flow.Func, root ast.Node, snapT types.Type) []*ast.AssignStmt {
-	var pulls []*ast.AssignStmt
-	c19inspect(root, func(n ast.Node) bool {
-		as, ok := n.(*ast.AssignStmt)
-		if !ok || len(as.Lhs) != 2 || len(as.Rhs) != 1 {
-			return true
-		}
-		call, ok := ast.Unparen(as.Rhs[0]).(*ast.CallExpr)
-		if !ok {
-			return true
-		}
-		if tup, ok := f.Info.TypeOf(call).(*types.Tuple); ok && tup.Len() == 2 &&
-			types.Identical(tup.At(0).Type(), snapT) && c19isErr(tup.At(1).Type()) {
-			pulls = append(pulls, as)
-		}
-		return true
-	})
-	return pulls
-}
-
-func c19Units(c *core.Ctx, r *c19run) {
-	for _, u := range r.units {
-		c19Unit(c, r, u)
-	}
-}
-
-func c19Unit(c *core.Ctx, r *c19run, u *c19unit) {
-	uf := u.f
-	pulls := c19pullAssigns(uf, u.lit, r.snapT)
-	if len(pulls) == 0 {
-		c.Violate("R-C19-1", u.name+"|send only after a successful pull", pos(c, u.sends[0]),
-			"the closure that delivers snapshots does not obtain (snapshot, error) from a pull: what is delivered is not a freshly read store state")
-		return
-	}
-	if len(pulls) > 1 {
-		c.Undecide("R-C19-1", u.name+"|send only after a successful pull", pos(c, pulls[1]), "more than one pull in the delivering closure: shape not supported")
-		return
-	}
-	pull := pulls[0]
-	pullCall := ast.Unparen(pull.Rhs[0]).(*ast.CallExpr)
-	r.pulls = append(r.pulls, c19pullSite{u, pullCall})
-	newObj := c19obj(uf, pull.Lhs[0])
-	errObj := c19obj(uf, pull.Lhs[1])
-	if errObj == nil {
-		c.Violate("R-C19-1", u.name+"|send only after a successful pull", pos(c, pull),
-			"the error of the pull is discarded: after a failed read (etcd down, timeout) the empty/partial result is delivered as if it were the store's content")
-		return
-	}
-	if newObj == nil {
-		c.Violate("R-C19-1", u.name+"|send delivers the pulled snapshot", pos(c, pull), "the pulled snapshot is discarded")
-		return
-	}
-	errKey := uf.NilKey(pull.Lhs[1])
-
-	// last: the snapshot variable of run (outside the closure) that the unit refers to
-	var lastObj *types.Var
-	ambiguous := false
-	for _, cand := range r.last {
-		used := false
-		c19inspect(u.lit, func(n ast.Node) bool {
-			if id, ok := n.(*ast.Ident); ok && uf.Info.Uses[id] == cand {
-				used = true
-			}
-			return true
-		})
-		if used {
-			if lastObj != nil {
-				ambiguous = true
-			}
-			lastObj = cand
-		}
-	}
-	if ambiguous {
-		c.Undecide("R-C19-1", u.name+"|last snapshot", pos(c, u.lit), "more than one snapshot-typed variable of run is used by the closure: cannot tell which one remembers the last delivery")
-		return
-	}
-	if lastObj == nil {
-		c.Violate("R-C19-1", u.name+"|send only when the snapshot differs from the last one", pos(c, u.sends[0]),
-			"no variable of run outliving one pull remembers the last delivered snapshot: every pull (every tick, every watch event) delivers again, consecutive snapshots are equal")
-		return
-	}
-	// snapshot-typed variables of the closure and what they hold: True = the snapshot just
-	// pulled, False = the previously delivered snapshot, unknown = something else
-	valKey := func(o types.Object) string { return sprintf("ev:holdsnew:%s@%d", o.Name(), o.Pos()) }
-	isSnapVar := func(o types.Object) bool {
-		v, ok := o.(*types.Var)
-		return ok && !v.IsField() && types.Identical(v.Type(), r.snapT)
-	}
-	snapVars := map[types.Object]bool{}
-	c19inspect(u.lit, func(n ast.Node) bool {
-		if id, ok := n.(*ast.Ident); ok {
-			if o := c19obj(uf, id); o != nil && isSnapVar(o) {
-				snapVars[o] = true
-			}
-		}
-		return true
-	})
-	// candidate comparisons: bool calls over two snapshot variables
-	var eqCalls []*ast.CallExpr
-	for _, call := range calls(u.lit.Body, false) {
-		if len(call.Args) != 2 || !c19isBool(uf.Info.TypeOf(call)) {
-			continue
-		}
-		a, b := c19obj(uf, call.Args[0]), c19obj(uf, call.Args[1])
-		if a != nil && b != nil && a != b && snapVars[a] && snapVars[b] {
-			eqCalls = append(eqCalls, call)
-		}
-	}
-	cmpKey := func(call *ast.CallExpr) string { return sprintf("ev:cmpok@%d", call.Pos()) }
-	validCmp := map[*ast.CallExpr]bool{}
-	isSend := map[*ast.CallExpr]bool{}
-	for _, s := range u.sends {
-		isSend[s] = true
-	}
-	isEq := map[*ast.CallExpr]bool{}
-	for _, e := range eqCalls {
-		isEq[e] = true
-	}
-	// a comparison counts if, when it was evaluated, it compared the previous with the new snapshot
-	sync := func(st *flow.State) {
-		for _, e := range eqCalls {
-			if !st.Is(cmpKey(e), flow.True) {
-				continue
-			}
-			switch st.Get(uf.CallKey(e)) {
-			case flow.True:
-				st.Set(c19evDiff, flow.False)
-			case flow.False:
-				st.Set(c19evDiff, flow.True)
-			}
-		}
-	}
-	res := analyze(c, uf, flow.Config{
-		OnNode: func(st *flow.State, n ast.Node) {
-			sync(st)
-			as, ok := n.(*ast.AssignStmt)
-			if !ok {
-				return
-			}
-			if as == pull {
-				for o := range snapVars {
-					st.Set(valKey(o), flow.Unknown)
-				}
-				for _, e := range eqCalls {
-					st.Set(cmpKey(e), flow.Unknown)
-				}
-				st.Set(c19evDiff, flow.Unknown)
-				st.Set(valKey(lastObj), flow.False)
-				st.Set(valKey(newObj), flow.True)
-				return
-			}
-			parallel := len(as.Lhs) == len(as.Rhs) && (as.Tok == token.ASSIGN || as.Tok == token.DEFINE)
-			vals := make([]flow.Val, len(as.Lhs))
-			for i := range as.Lhs {
-				if parallel {
-					if ro := c19obj(uf, as.Rhs[i]); ro != nil && snapVars[ro] {
-						vals[i] = st.Get(valKey(ro))
-					}
-				}
-			}
-			for i, l := range as.Lhs {
-				if lo := c19obj(uf, l); lo != nil && snapVars[lo] {
-					st.Set(valKey(lo), vals[i])
-				}
-			}
-		},
-		AfterAssume: func(st *flow.State, cond ast.Expr, outcome bool) { sync(st) },
-		OnCall: func(st *flow.State, call *ast.CallExpr, callee types.Object, deferred bool) {
-			switch {
-			case isEq[call]:
-				a, b := st.Get(valKey(c19obj(uf, call.Args[0]))), st.Get(valKey(c19obj(uf, call.Args[1])))
-				if (a == flow.True && b == flow.False) || (a == flow.False && b == flow.True) {
-					st.Set(cmpKey(call), flow.True)
-					validCmp[call] = true
-				} else {
-					st.Set(cmpKey(call), flow.False)
-				}
-			case isSend[call]:
-				if st.Is(c19evSent, flow.True) {
-					st.Set(c19evSent2, flow.True)
-				}
-				st.Set(c19evSent, flow.True)
-			}
-		},
-	})
-	if res == nil {
-		return
-	}
-	for _, e := range eqCalls {
-		if fo, ok := uf.Callee(e).(*types.Func); ok && validCmp[e] {
-			dup := false
-			for _, x := range r.eqFns {
-				if x == fo {
-					dup = true
-				}
-			}
-			if !dup {
-				r.eqFns = append(r.eqFns, fo)
-			}
-		}
-	}
-	lastKey := valKey(lastObj)
-	for i, s := range u.sends {
-		role := "send"
-		if len(u.sends) > 1 {
-			role = sprintf("send#%d", i+1)
-		}
-		sts := res.At[s]
-		if len(sts) == 0 {
-			c.Violate("R-C19-1", u.name+"|"+role+" only after a successful pull", pos(c, s), "the delivery is unreachable: no snapshot is ever delivered")
-			continue
-		}
-		var bad *flow.State
-		for _, st := range sts {
-			if !st.Is(errKey, flow.True) {
-				bad = st
-				break
-			}
-		}
-		c.Check(bad == nil, "R-C19-1", u.name+"|"+role+" only after a successful pull", pos(c, s),
-			sprintf("%d state(s) reach the delivery, all with the pull's error == nil", len(sts)),
-			"the delivery is reachable although the pull may have failed: after a failed read (etcd down, timeout) an empty or partial map is delivered as a snapshot — a content the store never had", witness(bad)...)
-
-		if len(eqCalls) == 0 {
-			c.Violate("R-C19-1", u.name+"|"+role+" only when the snapshot differs from the last one", pos(c, s),
-				"the closure never compares the last delivered snapshot with the pulled one: every pull (every tick, every watch event, writes outside the content) delivers again, consecutive snapshots are equal")
-		} else {
-			bad = nil
-			for _, st := range sts {
-				if !st.Is(c19evDiff, flow.True) {
-					bad = st
-					break
-				}
-			}
-			c.Check(bad == nil, "R-C19-1", u.name+"|"+role+" only when the snapshot differs from the last one", pos(c, s),
-				sprintf("%d state(s) reach the delivery, all after the comparison of the previous and the new snapshot returned false", len(sts)),
-				"the delivery is reachable without a comparison of the previously delivered snapshot with the pulled one having reported a difference (comparison missing on the path, its result ignored, or `last` overwritten before it is compared): equal consecutive snapshots are delivered, or changes are missed", witness(bad)...)
-		}
-
-		var ao types.Object
-		if len(s.Args) == 1 {
-			ao = c19obj(uf, s.Args[0])
-		}
-		if ao == nil || !snapVars[ao] {
-			c.Violate("R-C19-1", u.name+"|"+role+" delivers the pulled snapshot", pos(c, s),
-				"what is delivered is not a variable holding the pulled snapshot: the consumer does not receive the content that was read from the store")
-			continue
-		}
-		bad = nil
-		for _, st := range sts {
-			if !st.Is(valKey(ao), flow.True) {
-				bad = st
-				break
-			}
-		}
-		c.Check(bad == nil, "R-C19-1", u.name+"|"+role+" delivers the pulled snapshot", pos(c, s),
-			"on every path to the delivery the argument holds the snapshot returned by the pull",
-			"the variable delivered does not (yet) hold the pulled snapshot on some path: the consumer receives the previous content again (or something else) instead of the content just read", witness(bad)...)
-	}
-	// exits of the unit
-	var stale, swallowed, twice *flow.State
-	exits := 0
-	for _, ex := range res.Exits {
-		if ex.Kind != flow.ExitReturn || c19phantom(ex) {
-			continue
-		}
-		exits++
-		st := ex.State
-		sent := st.Is(c19evSent, flow.True)
-		if sent && !st.Is(lastKey, flow.True) {
-			stale = st
-		}
-		if !sent && st.Is(errKey, flow.True) && !st.Is(c19evDiff, flow.False) && (st.Is(c19evDiff, flow.True) || !st.Is(lastKey, flow.False)) {
-			swallowed = st
-		}
-		if st.Is(c19evSent2, flow.True) {
-			twice = st
-		}
-	}
-	c.RequireCount("R-C19-1", "exits of "+u.name, exits, 1)
-	c.Check(stale == nil, "R-C19-1", u.name+"|last is updated with every delivery", pos(c, u.lit),
-		sprintf("%d exit(s): on every path that delivered, `last` holds the delivered snapshot at exit", exits),
-		"a path delivers a snapshot without recording it as `last`: the next pull compares against a stale snapshot — the same content is delivered again on every tick, and a change back to the stale content is never delivered", witness(stale)...)
-	c.Check(swallowed == nil, "R-C19-1", u.name+"|a detected difference is delivered", pos(c, u.lit),
-		sprintf("%d exit(s): every path that found a difference (or overwrote `last` without knowing it equal) delivered", exits),
-		"a path detects a changed snapshot (or overwrites `last`) without delivering it: that content is never delivered unless the store changes again — no convergence to the final state", witness(swallowed)...)
-	c.Check(twice == nil, "R-C19-1", u.name+"|one delivery per pull", pos(c, u.lit),
-		"no path delivers twice", "a path delivers the same pull twice: consecutive snapshots are equal", witness(twice)...)
-}
-
-// ---------------------------------------------------------------------------------------
 // R-C19-3
 
 const (
@@ -777,14 +368,7 @@ func c19recvFrom(comm ast.Stmt) ast.Expr {
 
 func c19Skeleton(c *core.Ctx, r *c19run) {
 	f := r.f
-	unitVar := map[types.Object]bool{}
-	for _, u := range r.units {
-		unitVar[u.v] = true
-	}
-	isPcs := func(call *ast.CallExpr) bool {
-		o := c19obj(f, call.Fun)
-		return o != nil && unitVar[o]
-	}
+	isPcs := func(call *ast.CallExpr) bool { return r.isUnitCall(f, call) != nil }
 	// the loop: outermost for statement of run containing a pull-compare-send invocation
 	var loop *ast.ForStmt
 	c19inspect(f.Body, func(n ast.Node) bool {
@@ -846,6 +430,12 @@ func c19Skeleton(c *core.Ctx, r *c19run) {
 		}
 		return true
 	})
+	unitOf := func(call *ast.CallExpr) types.Object {
+		if u := r.isUnitCall(f, call); u != nil {
+			return u.v
+		}
+		return nil
+	}
 	isTick := map[ast.Stmt]bool{}
 	tickIdx := map[ast.Stmt]int{}
 	srcs := make([]c19source, len(tick))
@@ -882,7 +472,7 @@ func c19Skeleton(c *core.Ctx, r *c19run) {
 				st.Set(c19evPcs, flow.True)
 			}
 			for i, src := range srcs {
-				if src.rearmCall(f, call) || (isPcs(call) && rearming[i][c19obj(f, call.Fun)]) {
+				if src.rearmCall(f, call) || (isPcs(call) && rearming[i][unitOf(call)]) {
 					st.Set(rearmKey(i), flow.True)
 				}
 			}
